@@ -2,6 +2,7 @@ import SFV.Driver.Json
 import SFV.Model.FockTensor
 import SFV.Model.PhaseSpace
 import SFV.Model.Bosonic
+import SFV.Model.FockPrep
 /-! Driver for K3 (Gaussian simulator model over `Rat`) and K4 (Fock tensor index algebra over
 Gaussian integers).  Ops: `fock.apply`, `gauss.run`. -/
 namespace SFV.Drv.Sim
@@ -86,6 +87,14 @@ def fockApply (j : Json) : R Json := do
   | "projectResetMixed", ms => do
     let xs ← getNatList j "xs"
     pure <| jarr ((arrayOfTens D (2 * n) (projectResetMixed ms xs (tensOfArray D (2 * n) st))).map jGInt)
+  | "prepareAll", ms => do
+    let isPure := getBoolD j "pure" true
+    let r := if isPure then n else 2 * n
+    pure <| jarr ((arrayOfTens D r (prepareAll isPure n ms (tensOfArray D r st))).map jGInt)
+  | "prepareSome", ms => do
+    -- `state` = old mixed register state (rank 2n), `mat` = the prepared density matrix (rank 2k, interleaved)
+    let σ := tensOfArray D (2 * ms.length) m
+    pure <| jarr ((arrayOfTens D (2 * n) (prepareSome D n ms σ (tensOfArray D (2 * n) st))).map jGInt)
   | "axisLists", ms =>
     pure <| Json.mkObj [("pure", natList (blasList n ms)), ("mixed", natList (blasListMixed n ms)),
       ("purePerm", Json.bool (isPermList (blasList n ms) n)),
@@ -107,6 +116,12 @@ def asCxMat (j : Json) : R (Array (Array (Cx Rat))) := do
   rows.mapM fun r => do
     let cs ← r.getArr?
     cs.mapM asCx
+
+def asRatMat' (j : Json) : R (Array (Array Rat)) := do
+  let rows ← j.getArr?
+  rows.mapM fun r => do
+    let cs ← r.getArr?
+    cs.mapM asRat
 
 /-- memoise a state into arrays (so that closures do not nest across operations) -/
 def memo (st : GS Rat) : GS Rat :=
@@ -143,6 +158,21 @@ def gaussStep (st : GS Rat) (j : Json) : R (GS Rat) := do
     return initThermal st (← rat "pop") (← nat "k")
   else if op == "addMode" then
     return addMode st (← nat "m")
+  else if op == "fromCov" then
+    let modes ← getNatList j "modes"
+    let A ← asRatMat' (← j.getObjVal? "A")
+    let B ← asRatMat' (← j.getObjVal? "B")
+    let C ← asRatMat' (← j.getObjVal? "C")
+    let rx ← (← getArr j "rx").mapM asRat
+    let rp ← (← getArr j "rp").mapM asRat
+    let rxa := rx.toArray
+    let rpa := rp.toArray
+    let f (a : Array (Array Rat)) : Nat → Nat → Rat := fun i k => (a.getD i #[]).getD k 0
+    return fromCov st (1/4) (1/2) modes (f A) (f B) (f C) (fun i => rxa.getD i 0) (fun i => rpa.getD i 0)
+  else if op == "applyU" then
+    let modes ← getNatList j "modes"
+    let T ← asCxMat (← j.getObjVal? "T")
+    return applyU st (expandT modes fun i k => (T.getD i #[]).getD k 0)
   else throw s!"gauss: unknown op {op}"
 
 /-- the same step on the specification side -/
